@@ -92,6 +92,26 @@ fn gen_c10(seed: u64, tier: Tier) -> Scenario {
     let dom = Dom { custom_kernels: true, ..Dom::default() };
     sc.config = gen_config(&mut rng, &dom);
     sc.signal = gen_signal(&mut rng);
+    if rng.chance(2.5e-4) {
+        // frame counts above 2^24: reset right after construction or after a call or two
+        sc.config = gen_huge_config(&mut rng);
+        sc.signal = Signal::Const { v: 0.25 };
+        let mut ops = Vec::new();
+        for _ in 0..rng.usize_in(0, 2) {
+            ops.push(Op::process());
+        }
+        let prefix = ops.len();
+        ops.push(Op::Reset);
+        ops.push(Op::SetMask { mask: None });
+        ops.push(Op::process());
+        if rng.chance(0.5) {
+            ops.push(Op::process());
+        }
+        sc.profile = "huge-frame-counts+reset".into();
+        sc.ops = ops;
+        sc.twin = Twin::Reset { prefix };
+        return sc;
+    }
     let n = ops_budget(&sc.config, tier_budget(tier), 6, q(tier, 70, 100), &mut rng);
     let npre = rng.usize_in(0, (n * 2 / 3).max(1));
     let mut m = OpMix::swarm(&mut rng, npre);
@@ -588,6 +608,26 @@ fn gen_c16(seed: u64, tier: Tier) -> Scenario {
     let dom = Dom { edges: false, custom_kernels: true, ..Dom::default() };
     sc.config = gen_config(&mut rng, &dom);
     sc.signal = gen_signal(&mut rng);
+    if rng.chance(2.5e-4) {
+        // frame counts above 2^24: the allocating wrappers size their buffers from output_frames_next()
+        sc.config = gen_huge_config(&mut rng);
+        sc.signal = Signal::Const { v: 0.25 };
+        let n = rng.usize_in(1, 3);
+        let mut ops = Vec::new();
+        let mut idx = Vec::new();
+        let mut paths = Vec::new();
+        for i in 0..n {
+            let pa = *rng.pick(&[Path::IntoBuffer, Path::Wrapper, Path::VecWrapper, Path::PartialInto]);
+            let pb = *rng.pick(&[Path::Wrapper, Path::IntoBuffer, Path::VecIntoBuffer, Path::PartialWrapper]);
+            ops.push(Op::Process { path: pa, valid: None, slack_in: 0, slack_out: 0, slices: false, ragged: 0 });
+            idx.push(i);
+            paths.push(pb);
+        }
+        sc.profile = "huge-frame-counts+paths".into();
+        sc.ops = ops;
+        sc.twin = Twin::Paths { idx, paths };
+        return sc;
+    }
     let n = ops_budget(&sc.config, tier_budget(tier) * 0.5, 5, q(tier, 40, 80), &mut rng);
     let mut m = OpMix::swarm(&mut rng, n);
     m.p_alt_path = rng.uniform(0.3, 1.0);
